@@ -3,9 +3,9 @@ tools/robustness_transforms.py.  Each rewrites EVERY applicable site of a module
   swap-if-else      `if c: A else: B`            ->  `if not c: B else: A`      (plain if/else only)
   else-after-return `if c: ...return else: B`    ->  `if c: ...return` ; B
   split-and         `if a and b: X` (no else)    ->  `if a:` / `if b: X`
-  name-the-test     `if <compound test>:`        ->  `cond_k = <test>` ; `if cond_k:`   (tool only: too far from any
-                                                     realistic edit to demand invariance of every rule)
-A verdict that changes under one of the first three depends on how the code is written, not on what it does."""
+  name-the-test     `if <compound test>:`        ->  `cond_k = <test>` ; `if cond_k:`
+A verdict that changes under one of them depends on how the code is written, not on what it does.  (name-the-test
+joined the thorough tier when the CFG learnt to read named conditions in place, DESIGN section 21.2.)"""
 from __future__ import annotations
 
 import ast
